@@ -18,6 +18,7 @@ import (
 	txtypes "github.com/cosmos/cosmos-sdk/types/tx"
 	"github.com/cosmos/cosmos-sdk/types/tx/signing"
 	banktypes "github.com/cosmos/cosmos-sdk/x/bank/types"
+	"github.com/cosmos/cosmos-sdk/x/feegrant"
 	"github.com/ethereum/go-ethereum/common"
 	ethtypes "github.com/ethereum/go-ethereum/core/types"
 
@@ -49,6 +50,11 @@ func newFixture() *fixture {
 	fm.BaseFee = sdkmath.NewInt(1000000000)
 	fm.MinGasPrice = sdk.ZeroDec()
 	w := world.New(world.Options{NumAccounts: 5, FeeMarket: &fm, MaxGas: 40000000})
+	// account 3 has granted the signer a fee allowance: naming it as fee granter after signing is then
+	// a mutation that is not stopped for want of a grant, but only by the signature
+	if err := w.App.FeeGrantKeeper.GrantAllowance(w.Ctx(), w.Addrs[3], w.Addrs[1], &feegrant.BasicAllowance{}); err != nil {
+		panic(err)
+	}
 	return &fixture{w: w, S: 1, R: 2, amount: 100, price: big.NewInt(3000000000)}
 }
 
@@ -398,6 +404,13 @@ func (f *fixture) cosmosMutations(ctx sdk.Context, kind string, n uint64) []muta
 				return w.CosmosTxEIP712Sig(ctx, s)
 			}
 			return w.CosmosTx(ctx, s)
+		}})
+	}
+	if kind == "eip712-ext" {
+		// somebody else signs the typed data with their own key and names themselves fee payer, while
+		// everything else (account, sequence, messages, signer-info public key) is the account's
+		out = append(out, mutation{"signdoc:forged-by-other-key-as-fee-payer", func() ([]byte, error) {
+			return w.EIP712Tx(ctx, world.EIP712Spec{CosmosSpec: f.cosmosSpec(kind, n), ForgeBy: w.Keys[3]})
 		}})
 	}
 	one("accnum-other", func(s *world.CosmosSpec) { x := uint64(3); s.AccNum = &x })
